@@ -205,6 +205,16 @@ func c19TokenAgreement(r *an.Run) {
 				}
 				r.Check(idxOK && chOK, short(f)+"|invalid-name-index", c.Pos(), "the offset includes the index returned by validateChangeName and the quoted rune is the one that call returned")
 				r.Check(shiftOK || hasTrimCount(sl), short(f)+"|invalid-name-shift", c.Pos(), "the offset includes the number of bytes trimmed before the name (leading '@' and spaces)")
+				// every byte cut off the front on the way from the line's text to the validated name is counted:
+				// a front cut is a slice expression whose low bound is part of the offset's sum, never a
+				// library trim (TrimSpace, TrimLeft, TrimPrefix …) that does not say how much it removed
+				if call != nil {
+					if cut := uncountedFrontCut(call.Call.Args[0], sl); cut != nil {
+						r.Fail(short(f)+"|invalid-name-front-cut|"+an.Describe(cut), cut.Pos(), "on the way from the header line to the name that is validated, %s removes bytes from the front without their number entering the reported offset: for a header with leading white space the diagnostic points left of the offending character", an.Describe(cut))
+					} else {
+						r.Pass(short(f)+"|invalid-name-front-cut", call.Pos(), "every cut at the front of the header text on the way to the validated name is a slice whose low bound is part of the reported offset")
+					}
+				}
 				// only + : no subtraction or other arithmetic
 				okArith := true
 				for v := range sl {
@@ -518,4 +528,60 @@ func c19RejectionNoRewrite(r *an.Run) {
 		}
 	}
 	r.Check(ret, short(f)+"|load-error-returned", lp.Pos(), "a rejected patch makes Run return the diagnostic")
+}
+
+// uncountedFrontCut walks from the validated name back to the line's text and
+// returns the first operation that removes bytes from the front without the
+// removed count being part of the offset slice sl (nil when there is none).
+func uncountedFrontCut(name ssa.Value, sl map[ssa.Value]bool) ssa.Value {
+	seen := map[ssa.Value]bool{}
+	var visit func(v ssa.Value, depth int) ssa.Value
+	visit = func(v ssa.Value, depth int) ssa.Value {
+		if v == nil || seen[v] || depth > 40 {
+			return nil
+		}
+		seen[v] = true
+		switch x := v.(type) {
+		case *ssa.Phi:
+			for _, e := range x.Edges {
+				if c := visit(e, depth+1); c != nil {
+					return c
+				}
+			}
+		case *ssa.Slice:
+			if x.Low != nil {
+				if k, isc := an.ConstInt(x.Low); !(isc && k >= 0) && !sl[x.Low] {
+					// a computed low bound that the offset does not contain
+					counted := false
+					for w := range an.BackSlice(x.Low, an.SliceOpts{}) {
+						if sl[w] {
+							counted = true
+						}
+					}
+					if !counted {
+						return x
+					}
+				}
+			}
+			return visit(x.X, depth+1)
+		case *ssa.Convert:
+			return visit(x.X, depth+1)
+		case *ssa.ChangeType:
+			return visit(x.X, depth+1)
+		case *ssa.Call:
+			n := an.CalleeName(x)
+			switch n {
+			case "strings.TrimRight", "strings.TrimRightFunc", "strings.TrimSuffix", "bytes.TrimRight", "bytes.TrimRightFunc", "bytes.TrimSuffix":
+				return visit(x.Call.Args[0], depth+1)
+			case "strings.TrimSpace", "strings.Trim", "strings.TrimFunc", "strings.TrimLeft", "strings.TrimLeftFunc", "strings.TrimPrefix",
+				"bytes.TrimSpace", "bytes.Trim", "bytes.TrimFunc", "bytes.TrimLeft", "bytes.TrimLeftFunc", "bytes.TrimPrefix",
+				"strings.Fields", "strings.Split", "strings.SplitN", "strings.Cut", "strings.CutPrefix":
+				return x
+			}
+		case *ssa.Extract:
+			return visit(x.Tuple, depth+1)
+		}
+		return nil
+	}
+	return visit(name, 0)
 }
